@@ -113,7 +113,7 @@ class ClassWorld:
             'C12': [('new', 4), ('iset', 5), ('cset', 4), ('imut', 3), ('cmut', 2), ('iattr', 2), ('cattr', 1.5), ('iobj', 1.5), ('cobj', 1),
                     ('touch', 1.5), ('lsp', 0.5)],
             'C13': [('new', 3), ('iset', 3), ('cset', 5), ('addp', 3), ('lsp', 3), ('getp', 2), ('inp', 1), ('vals', 2), ('repr', 1), ('touch', 1),
-                    ('watchnew', 1)],
+                    ('watchnew', 1), ('cparam', 2.5)],
             'C14': [('new', 3), ('newk', 2), ('kset', 5), ('kupdate', 2), ('cset', 3), ('rset', 2), ('ec_open', 3), ('ec_close', 3), ('ec_raise', 1.5),
                     ('touch', 1.5), ('iset', 2), ('nameset', 1)],
         }[prop]
@@ -141,6 +141,13 @@ class ClassWorld:
                     depth -= 1
             if k == 'new' or k == 'newk':
                 op['kw'] = [p for p in used if p not in ('r',) and rng.random() < 0.3]
+            if k == 'cparam':
+                op['via'] = rng.choice(['setattr', 'setattr', 'add_parameter'])
+            if prop == 'C13':
+                # the invariant is checked on a seeded subset only: checking reads namespaces and so fills caches, and
+                # a class whose namespace was never read is exactly the interesting state
+                r = rng.random()
+                op['chk'] = [] if r < 0.45 else ([rng.randrange(nc)] if r < 0.85 else list(range(nc)))
             ops.append(op)
         return {'cfg': cfg, 'ops': ops}
 
@@ -394,9 +401,11 @@ class _Run:
     def extra_names(self):
         return {n for e in self.extra for n in e}
 
-    def check_c13(self, where):
+    def check_c13(self, where, only=None):
         P = self.param.Parameter
         for ci, K in enumerate(self.classes):
+            if only is not None and ci not in only:
+                continue
             static = {}
             for k in K.__mro__:
                 for n, d in k.__dict__.items():
@@ -417,6 +426,8 @@ class _Run:
                     self.viol('C13.values', f"{where}: K{ci}.param.values()[{n!r}] = {vals.get(n, '<missing>')!r}, getattr gives {getattr(K, n)!r}")
         for i, o in enumerate(self.insts):
             K = type(o)
+            if only is not None and self.im[i]['c'] not in only:
+                continue
             static = set()
             for k in K.__mro__:
                 for n, d in k.__dict__.items():
@@ -644,6 +655,19 @@ class _Run:
                 self.probe['stale_risk'] = True
             self.classes[ci].param.add_parameter(name, param.Parameter(default=d))
             self.extra[ci][name] = d
+        elif k == 'cparam':
+            # a new Parameter object assigned over an existing Parameter name (declared here or inherited)
+            q = 'v' if 'v' in self.visible(ci) else None
+            if q is None:
+                return
+            d = self.fresh_int()
+            if any(c in self.cache_read for c in range(nc) if ci in self.mro[c]):
+                self.probe['stale_risk'] = True
+            if op.get('via') == 'add_parameter':
+                self.classes[ci].param.add_parameter(q, param.Parameter(default=d))
+            else:
+                setattr(self.classes[ci], q, param.Parameter(default=d))
+            self.own[ci][q] = PM(q, d, {'doc': ANY})
         elif k == 'watchnew':
             names = [(c, n) for c, e in enumerate(self.extra) for n in e]
             if not names:
@@ -761,13 +785,26 @@ class _Run:
             except Exception as e:      # noqa
                 self.viol(f"{prop}.exception", f"{op['op']} raised {type(e).__name__}: {str(e)[:200]}")
             where = f"after step {step} ({op['op']})"
-            if prop == 'C12':
-                self.check_c12(where)
-            elif prop == 'C13':
-                self.check_c13(where)
-            else:
-                self.check_c14(where)
+            try:
+                if prop == 'C12':
+                    self.check_c12(where)
+                elif prop == 'C13':
+                    self.check_c13(where, only=set(op['chk']) if 'chk' in op else None)
+                else:
+                    self.check_c14(where)
+            except _Stop:
+                raise
+            except Exception as e:      # noqa  - the library's own API failed while being observed
+                self.viol(f"{prop}.exception", f"{where}: observing the objects raised {type(e).__name__}: {str(e)[:200]}")
             states.append(f"{self.cfg['shape']}|{sum(len(o) for o in self.own)}|{sum(len(m['copies']) for m in self.im)}|{op['op']}")
+        if prop == 'C13':
+            self.step = len(self.case['ops']) + 1
+            try:
+                self.check_c13('at the end')
+            except _Stop:
+                raise
+            except Exception as e:      # noqa
+                self.viol('C13.exception', f"at the end: observing the objects raised {type(e).__name__}: {str(e)[:200]}")
         # leave every context, then the flags must be back
         if prop == 'C14':
             while self.ec:
